@@ -21,22 +21,32 @@ TYPES = [
   ('laythe_vm/src/fiber/call_frame.rs', 'CallFrame'), ('laythe_vm/src/fiber/mod.rs', 'Fiber'),
   # the interpreter's ROOT SET: struct in vm/mod.rs, `impl TraceRoot for Vm` in vm/impls.rs
   ('laythe_vm/src/vm/mod.rs', 'Vm', 'laythe_vm/src/vm/impls.rs', 'TraceRoot for Vm'),
+  # the root set of a running compilation
+  ('laythe_vm/src/compiler/mod.rs', 'Compiler', 'laythe_vm/src/compiler/mod.rs', "<'a, 'src: 'a> TraceRoot for Compiler<'a, 'src>"),
+  ('laythe_vm/src/compiler/mod.rs', 'ClassAttributes'),
 ]
 
 IMPL_NAME = {'Map': 'Map<K, V>', 'UniqueVector': 'UniqueVector<T, H>'}
 
 # ---- classification of field types -----------------------------------------------------------------------------------
-_LEAF = [r'InlineCache', r'VmFiles', r'BuiltIn', r'Value', r'ObjRef<.*>', r'Ref<.*>', r'LyStr', r'Captures', r'Instance', r'List(<.*>)?', r'Tuple', r'Array<.*>', r'RawSharedVector<.*>',
+_LEAF = [r"&'a dyn TraceRoot", r'NonNull<Compiler<.*>>', r'FunBuilder', r'ChunkBuilder', r'InlineCache', r'VmFiles', r'BuiltIn', r'Value', r'ObjRef<.*>', r'Ref<.*>', r'LyStr', r'Captures', r'Instance', r'List(<.*>)?', r'Tuple', r'Array<.*>', r'RawSharedVector<.*>',
          r'RawUniqueVector<.*>', r'UniqueVector<.*>', r'Chunk', r'NativeMeta', r'NativeSignature', r'Box<dyn LyNative>', r'Box<dyn Enumerate>',
          r'Parameter', r'[A-Z]']                      # a single capital = a type parameter bounded by Trace
-_PLAIN = [r'RefCell<Allocator>', r'Io', r'PathBuf', r'IdEmitter', r'bool', r'u8', r'u16', r'u32', r'i32', r'usize', r'f64', r'\*mut .*', r'\*const .*', r'Arity', r'FunKind', r'FiberState', r'ChannelKind',
+_PLAIN = [r'Rc<RefCell<Allocator>>', r'Rc<RefCell<CacheIdEmitter>>', r"&'a LineOffsets", r"&'a Bump", r'Vec<Diagnostic<VmFileId>>', r'TryAttributes', r'LoopAttributes', r'LabelEmitter', r'VmFileId',
+          r"collections::Vec<'a, Local<'a>>", r"collections::Vec<'a, &'a SymbolTable<'src>>", r"&'a SymbolTable<'src>", r'Vec<CaptureIndex>', r'Map<u16, u16>', r'RefCell<Allocator>', r'Io', r'PathBuf', r'IdEmitter', r'bool', r'u8', r'u16', r'u32', r'i32', r'usize', r'f64', r'\*mut .*', r'\*const .*', r'Arity', r'FunKind', r'FiberState', r'ChannelKind',
           r'ChannelQueueState', r'ChannelQueueKind', r'NativeEnvironment', r'ParameterKind', r'ObjectKind', r'AtomicBool']
 # fields whose referent is provably reachable through another traced field (A-alias; each is an assumption listed in the evidence)
 EXEMPT = {
+  ('ClassAttributes', 'name'): 'the class name is interned and is also a constant of the function being compiled (Compiler::class: identifier_constant(name)), which Compiler::trace reaches through `constants`',
+  ('Compiler', 'chunk'): 'every constant of the chunk under construction is also a key of `constants` (make_constant inserts into both), which trace visits',
+  ('Compiler', 'root_trace'): 'traced by the OUTERMOST compiler only (the one without `enclosing`); inner compilers reach it through the enclosing chain — stated by the hand-written extra clause below',
   ('Vm', 'builtin'): 'the builtin classes are symbols of the std package modules, which `packages` reaches',
   ('Vm', 'global_module'): 'the global module is the root module of the std package, which `packages` reaches',
   ('Vm', 'current_fun'): 'the function of the innermost frame of `fiber`, which Fiber::trace reaches through `frames`',
   ('Class', 'init'): 'Class::add_method stores the initialiser in `methods` under "init" as well, and inherit copies the super class methods: `init` aliases an entry of `methods`'}
+
+# hand-written additions to a generated contract
+EXTRA_ENSURES = {'Compiler': ['(self.enclosing is None ==> self.root_trace.reach().subset_of(final(verif_log).seen))']}
 
 def _is(pats, t): return any(re.fullmatch(p, t) for p in pats)
 
@@ -108,6 +118,7 @@ def generate(repo):
   for ent in TYPES:
     relfile, name = ent[0], ent[1]
     implname = ent[3] if len(ent) > 3 else 'Trace for ' + name
+    implname = re.sub(r'<[^<>]*>', '', re.sub(r'^<[^>]*>\s*', '', implname)).strip()    # the path the engine gives the extracted item
     rf = rsitems.RustFile(os.path.join(repo, relfile))
     it = rf.find('struct', name)
     try:
@@ -129,6 +140,7 @@ def generate(repo):
       elif c[0] == 'kv':
         if c[1]: ens.append('%s.reach_keys().subset_of(final(verif_log).seen)' % acc)
         if c[2]: ens.append('%s.reach_vals().subset_of(final(verif_log).seen)' % acc)
+    ens += EXTRA_ENSURES.get(name, [])
     contracts.append('@fn %s::trace\n@tags C05\n@spec\n  // generated: trace reaches every GC-typed field of %s (%s)\n  ensures\n%s\n@end\n'
                      % (implname, name, ', '.join('%s: %s' % (f, ty) for f, ty, _ in cls), '\n'.join('    %s,' % e for e in ens)))
   for t in ('Array', 'RawUniqueVector', 'RawSharedVector'):
@@ -168,6 +180,8 @@ UNIT = dict(
     # the trait impl becomes an inherent impl of the model struct (Verus cannot take `requires`/ghost parameters on a foreign trait's method)
     ('R15', 'kind:implhdr', dict(pat=r'^impl(?:<[^{]*>)?\s+Trace(?:Root)?\s+for\s+(\w+)(?:<[^{]*>)?\s*(?:where[^{]*)?\{', rep=r'impl \1 {', regex=True, count=1)),
     ('R15', 'kind:fn', dict(pat=r'^(\s*(?:#\[inline\]\s*)?)fn trace', rep=r'\1pub fn trace', regex=True, count=1)),
+    # R9: the enclosing compiler is reached through a NonNull pointer
+    ('R9', 'TraceRoot for Compiler::trace', dict(pat='unsafe { enclosing.as_ref().trace() }', rep='enclosing.trace()', count=1)),
     ('R15', 'kind:fn'),
   ],
   assumption_ids=['A-alias'],
